@@ -166,7 +166,83 @@ def jobs(tier, seed):
                             'cost': (hi - lo) / 8 + 1, 'timeout': 2400})
         out.append({'name': f'b:{T.version_name(v)}', 'kind': 'b', 'v': v, 'tier': tier, 'cost': 20 + 3 * max(v, 0)})
         out.append({'name': f'r:{T.version_name(v)}', 'kind': 'r', 'v': v, 'cost': 5 + max(v, 0)})
+    for k, (ver, err, boost, n) in enumerate(E2E_SHAPES if tier == 'quick' else E2E_SHAPES + E2E_MORE):
+        out.append({'name': f'e:make({n} bytes, version={ver}, error={err}, boost_error={boost})', 'kind': 'e', 'ver': ver, 'err': err, 'boost': boost, 'n': n, 'cost': 30})
     return out
+
+
+# end to end: the real segno.make (so _encode's own order of boost / capacity lookup / terminator / padding is what runs), byte content of
+# n free bytes, level possibly boosted; the tail of the data stream READ BACK FROM THE SYMBOL is compared with ISO for the level the symbol carries
+E2E_SHAPES = [('M3', 'L', True, 2), ('M3', 'L', True, 6), ('M3', 'L', True, 8), ('M3', 'L', False, 3), ('M3', 'M', True, 4),
+              ('M4', 'L', True, 3), ('M4', 'L', True, 10), ('M4', 'M', True, 9), (None, 'L', True, 2), (None, None, True, 5), (1, 'L', True, 4), (1, 'L', True, 10),
+              (1, 'M', True, 12), (2, 'L', True, 12), (2, 'M', False, 20), (3, 'L', True, 20)]
+E2E_MORE = [('M3', 'L', True, 1), ('M3', 'L', True, 4), ('M3', 'L', True, 7), ('M4', 'L', True, 6), ('M4', 'Q', True, 5), (4, 'L', True, 30), (5, 'L', True, 40), (6, 'M', True, 50),
+            (1, 'Q', True, 5), (2, 'L', True, 18), (None, 'M', True, 9)]
+
+
+def tail_key(v, level, end, tail):
+    """None if the bits after the last segment are the ISO tail; else the violation key (the recorded deviation has its own key)"""
+    want = decoder.expected_tail(v, level, end)
+    conc = [common.cell_bit(x) if not isinstance(x, int) else x for x in tail]
+    if len(conc) == len(want) and all(isc(a) and a == b for a, b in zip(conc, want)):
+        return None
+    cap = T.data_bits(v, level)
+    t = min(cap - end, T.terminator_bits(v))
+    a = end + t
+    if v not in (T.M1, T.M3) and a % 8 == 0 and a < cap:
+        dev = [0] * t + [0] * 8
+        k = 0
+        while end + len(dev) + 8 <= cap:
+            dev += [(T.PAD[k % 2] >> (7 - i)) & 1 for i in range(8)]
+            k += 1
+        if len(conc) == len(dev) and all(isc(x) and x == y for x, y in zip(conc, dev)):
+            return KNOWN_ALIGNED
+    return 'padding'
+
+
+def job_e(res, spec):
+    from . import datapath as D
+    from symx.values import SBytes
+    L_ = common.sx()
+    kw = {'error': spec['err'], 'boost_error': spec['boost'], 'mode': 'byte', 'mask': 1}
+    if spec['ver'] is not None:
+        kw['version'] = spec['ver']
+    else:
+        kw['micro'] = True
+    content = SBytes.fresh('c', spec['n'])
+    ex, paths = common.explore(lambda: L_.segno.make(content, **kw), max_paths=50)
+    res.paths = len(paths)
+    accepted = 0
+    for path in paths:
+        r_, m = check(path.pc)
+        data = list(common.bytes_from_model(m, content)) if m is not None else [0x61] * spec['n']
+        inp = {'e2e': True, 'kw': kw, 'data': data, 'v': 0, 'level': None, 'L': 0}
+        if path.status != 'ok':
+            res.obligations += 1
+            res.violation('exception', f'{type(path.value).__name__}: {path.value}', inp)
+            continue
+        accepted += 1
+        q = path.value
+        v = D.version_const(q.version)
+        ex2, rpaths = common.explore(lambda: D.read_back(q.matrix, v), max_paths=8, assume=path.pc, catch=(decoder.DecodeError,))
+        for rp in rpaths:
+            res.obligations += 1
+            res.kinds.add('tail-read-back-from-the-symbol==ISO-tail-for-the-level-in-the-symbol (real make, all content bytes)')
+            if rp.status != 'ok':
+                res.violation('undecodable', f'reference reader: {rp.value}', inp)
+                continue
+            r = rp.value
+            key = tail_key(v, r['level'], r['end'], r['stream'][r['end']:])
+            if key is None and r['level'] == q.error:
+                res.discharged += 1
+                res.trivial += 1
+            else:
+                res.violation(key or 'metadata', f'{q.designator}: tail after bit {r["end"]} (level in symbol {r["level"]})', inp)
+    if not accepted:
+        res.inconclusive.append('no accepting path (harness error)')
+    res.sample({'case': spec['name'], 'symbol': 'real segno.make, byte content free', 'paths': len(paths)})
+    return res.as_dict()
+
 
 
 def three(enc, consts, buff, v, lv):
@@ -184,6 +260,8 @@ def run_job(spec):
     res = Result(spec['name'])
     L_ = common.sx(('consts', 'encoder'))
     enc, consts = L_.encoder, L_.consts
+    if spec['kind'] == 'e':
+        return job_e(res, spec)
     v = spec['v']
     if spec['kind'] == 'b':
         return job_b(res, enc, consts, v, spec['tier'])
@@ -383,6 +461,25 @@ def replay(viol):
     import segno.encoder as enc
     from segno import consts
     inp = viol['input']
+    if inp.get('e2e'):
+        import segno
+        try:
+            q = segno.make(bytes(inp['data']), **inp['kw'])
+        except Exception as e:
+            return True, f'make raised {type(e).__name__}: {e}'
+        from . import datapath as D
+        vv = D.version_const(q.version)
+        try:
+            r = decoder.decode_concrete(q.matrix, vv)
+        except decoder.DecodeError as e:
+            return True, f'{q.designator}: reference reader: {e}'
+        key = tail_key(vv, r['level'], r['end'], r['stream'][r['end']:])
+        if key == KNOWN_ALIGNED:
+            viol['key'] = KNOWN_ALIGNED
+        elif viol.get('key') == KNOWN_ALIGNED:
+            return False, 'deviation has a different shape on the real code'
+        return key is not None or r['level'] != q.error, (f'make({bytes(inp["data"])!r}, {inp["kw"]}) -> {q.designator}: bits after the last segment '
+                                                          f'{"".join(map(str, r["stream"][r["end"]:]))[:72]} expected {"".join(map(str, decoder.expected_tail(vv, r["level"], r["end"])))[:72]}')
     v, lv, L = inp['v'], inp['level'], inp['L']
     if inp.get('remainder'):
         try:
